@@ -19,7 +19,19 @@ Programs == {
                             Expr(MCall(New("Box", <<>>), "open", <<I(1)>>))>>>>,
    <<"shadow-and-binders", <<Report, Def("item", TRUE, "", I(1)), Def("items", TRUE, "", ListL(<<I(1), I(2)>>)), For("it", V("items"), <<Expr(Call("report", <<V("it")>>))>>),
                              Match(V("item"), <<Arm(Var("n"), <<Expr(Call("report", <<V("n")>>))>>)>>), Def("item", TRUE, "", I(2)), Expr(Call("report", <<V("item")>>))>>>> }
-Cases == { [prop |-> "C15", kind |-> p[1], ctx |-> <<>>, hoist |-> FALSE, prog |-> Prog(p[2])] : p \in Programs }
+\* SIBLING SCOPES: every variable of these programs is bound in a scope of its own (a parameter of one function, the variable of one
+\* loop, the binder of one arm ...), no scope encloses another one's binding, and the bindings have DIFFERENT types.  Giving two of them
+\* the same name (spec/Rename.tla MergePairs) is the inverse of renaming one binding to a fresh name: verdict and output do not change.
+Sibling == {
+   <<"sibling-scopes", <<Report, Fun("show", <<Param("item", "Str", Absent)>>, "", <<>>, <<PrintS(V("item"))>>),
+                         Fun("twice", <<Param("num", "Int", Absent)>>, "Int", <<>>, <<Expr(Bin("*", V("num"), I(2)))>>),
+                         Fun("flag", <<>>, "Bool", <<>>, <<Def("loc", TRUE, "Bool", BoolL(TRUE)), PrintS(V("loc")), Expr(V("loc"))>>),
+                         For("k", ListL(<<I(1), I(2), I(3)>>), <<Expr(Call("report", <<V("k")>>))>>),
+                         For("w", ListL(<<StrL("a"), StrL("b")>>), <<Expr(Call("show", <<V("w")>>))>>),
+                         Match(I(4), <<Arm(Var("m"), <<Expr(Call("report", <<V("m")>>))>>)>>),
+                         Expr(Call("show", <<StrL("z")>>)), PrintS(Call("twice", <<I(2)>>)), PrintS(Call("flag", <<>>))>>>> }
+Cases == { [prop |-> "C15", kind |-> p[1], ctx |-> <<>>, hoist |-> FALSE, prog |-> Prog(p[2])] : p \in Sibling } \cup
+         { [prop |-> "C15", kind |-> p[1], ctx |-> <<>>, hoist |-> FALSE, prog |-> Prog(p[2])] : p \in Programs }
 VARIABLE c
 Init == c \in Cases
 Next == UNCHANGED c
